@@ -200,7 +200,7 @@ def run(item):
         full = multi(inst, lambda tr: Ref(tr).constraint_atoms())
         # twin: the complete multiset minus one instance must leave an unmatched NLP row
         rt = {d: [refa[d][j] for j in range(len(refa[d])) if refa[d][j][2] != full[d][-1][2]] for d in refa}
-        _, _, un_i2 = ch2.match(rt, impa)
+        _, _, un_i2 = ch2.match(rt, impa, far=False)
         extra = [i for i in un_i2 if ch2._vars(impa['z'][i][1]) & mv]
         if len(rt['z']) < len(refa['z']):
             if extra:
